@@ -323,7 +323,7 @@ def _run(chk, tier, bins, gdir):
                        "the non-nested families (Rannacher-Turek, Q1~, P2-bubble, Hermite, Argyris, BFS, CDSSY) are not covered",
                        "shipped mesh files are snapped to a dyadic grid before refinement (a still valid mesh)",
                        "histories: one harness binary per shape family, so simplex and hypercube assemblies are not mixed in one process; rules with more "
-                       "than 25 (quads) / 64 (hexahedra) / 16 (triangles) / 48 (tetrahedra) points (thorough: 36 / 64 / 28 / 48) and auto-degree aliases are "
+                       "than 25 (quads) / 64 (hexahedra) / 16 (triangles) / 48 (tetrahedra) points and auto-degree aliases are "
                        "not part of the enumerated histories; refined-rule points are compared at 2^-20 with the rounding tolerance stated in Transfer.tla"]
 
 
